@@ -271,7 +271,74 @@ func init() {
 			}
 		}
 		e.close()
-		c.close([]string{"c02:ticket", "c02:trivial-key-try", "c02:entry-nonce"})
+		// cookie store: the same session sealed again and again (every refresh re-issues the cookie): under a cipher whose
+		// key stream depends on the fresh IV no two cookies share an aligned 16-byte block; shared blocks mean the XOR of two
+		// cookies is the XOR of their plaintexts (a user who knows her own session reads another user's tokens)
+		for _, minimal := range []bool{false} {
+			ec, err := newEnv(c, proxyCfg{InjectRequest: defaultInject(), CookieMinimal: minimal})
+			if err != nil {
+				c.violation("HARNESS", "env: "+err.Error(), nil)
+				continue
+			}
+			now := time.Now().Truncate(time.Second)
+			mkSess := func(tag string) *sessionsapi.SessionState {
+				return &sessionsapi.SessionState{CreatedAt: &now, Email: tag + "@example.com", User: "user-" + tag,
+					AccessToken: fmt.Sprintf("%x", newRng(hash64(tag)).bytes(300)), IDToken: fmt.Sprintf("%x", newRng(hash64(tag)+1).bytes(300)), Groups: []string{"g-" + tag}}
+			}
+			seal := func(s *sessionsapi.SessionState) []byte {
+				rec := &respRecorder{h: http.Header{}}
+				if err := ec.proxy.sessionStore.Save(rec, mustReq(ec, ""), s); err != nil {
+					return nil
+				}
+				b := newBrowser()
+				b.apply(&http.Response{Header: rec.h})
+				var joined string
+				if v, ok := b.jar[ec.opts.Cookie.Name]; ok {
+					joined = v
+				} else {
+					for k := 0; ; k++ {
+						v, ok := b.jar[fmt.Sprintf("%s_%d", ec.opts.Cookie.Name, k)]
+						if !ok {
+							break
+						}
+						joined += v
+					}
+				}
+				raw, err := base64.URLEncoding.DecodeString(strings.SplitN(joined, "|", 2)[0])
+				if err != nil {
+					return nil
+				}
+				return raw
+			}
+			var cts [][]byte
+			var who []string
+			for _, tag := range []string{"alice", "alice", "alice", "alice", "bob", "bob"} {
+				if ct := seal(mkSess(tag)); len(ct) >= 160 {
+					cts = append(cts, ct)
+					who = append(who, tag)
+				}
+			}
+			for i := 0; i < len(cts); i++ {
+				for j := i + 1; j < len(cts); j++ {
+					shared, total := 0, 0
+					for off := 0; off+16 <= len(cts[i]) && off+16 <= len(cts[j]); off += 16 {
+						total++
+						if string(cts[i][off:off+16]) == string(cts[j][off:off+16]) {
+							shared++
+						}
+					}
+					c.casen(fmt.Sprintf("blocks|%d|%d", i, j), "")
+					c.count("c02:cookie-block-pairs")
+					if shared > 0 {
+						c.violation("C02", fmt.Sprintf("two session cookies (%s, %s) share %d of %d aligned ciphertext blocks: the key stream does not depend on the fresh IV, so the XOR of two cookie values is the XOR of the sessions they hold (tokens and addresses recoverable by any user who knows her own session)", who[i], who[j], shared, total),
+							map[string]interface{}{"cookie_a_hex": fmt.Sprintf("%x", cts[i][:96]), "cookie_b_hex": fmt.Sprintf("%x", cts[j][:96])})
+						break
+					}
+				}
+			}
+			ec.close()
+		}
+		c.close([]string{"c02:ticket", "c02:trivial-key-try", "c02:entry-nonce", "c02:cookie-block-pairs"})
 	})
 
 	registerSuite("saveconc", func(c *suiteCtx) {
